@@ -90,11 +90,19 @@ def S(x) -> str:
 
 # --------------------------------------------------------------------------- implementation adapters
 
-def impl_pair(a, b, la, texts=("a", "b")):
+BIG_PAGE = ("-1000", "-1000", "3000", "3000")
+# page boxes that leave the test arrangement (coordinates 0..400) inside, across and entirely outside the
+# page, with borders on and off the multiples of the Plane grid size
+PAGES = [BIG_PAGE, BIG_PAGE, ("0", "0", "612", "792"), ("0", "0", "600", "800"), ("500", "450", "650", "600"),
+         ("150", "350", "400", "500"), ("-300", "-300", "-100", "-50"), ("130", "310", "131", "311"),
+         ("3/2", "7/2", "99/2", "101/2")]
+
+
+def impl_pair(a, b, la, texts=("a", "b"), bbox=BIG_PAGE):
     """Analyse a page holding exactly glyphs a, b (in content order).
     Returns (same_line, line_class, space_between, same_box)."""
     from pdfminer.layout import LTAnno, LTChar, LTTextBox, LTTextLine, LTTextLineVertical
-    case = {"bbox": ["-1000", "-1000", "3000", "3000"], "la": la,
+    case = {"bbox": list(bbox), "la": la,
             "items": [["c", 1] + [S(v) for v in a] + [texts[0]], ["c", 2] + [S(v) for v in b] + [texts[1]]]}
     page, err = L.run_impl(case)
     if err is not None:
@@ -131,7 +139,7 @@ def impl_pair(a, b, la, texts=("a", "b")):
     return same_line, cls, space, same_box, case
 
 
-def impl_neighbors(a, b, ratio, vertical: bool) -> Tuple[bool, bool]:
+def impl_neighbors(a, b, ratio, vertical: bool, bbox=BIG_PAGE) -> Tuple[bool, bool]:
     """find_neighbors of line A (a single glyph `a`) in a plane holding lines A and B: is B returned? is A?"""
     from pdfminer.layout import LTTextLineHorizontal, LTTextLineVertical
     from pdfminer.utils import Plane
@@ -139,7 +147,7 @@ def impl_neighbors(a, b, ratio, vertical: bool) -> Tuple[bool, bool]:
     la_, lb_ = cls(F(1, 8)), cls(F(1, 8))
     la_.add(L.make_char(1, *a, "a"))
     lb_.add(L.make_char(2, *b, "b"))
-    plane = Plane((F(-1000), F(-1000), F(3000), F(3000)))
+    plane = Plane(tuple(F(v) for v in bbox))
     plane.extend([la_, lb_])
     res = la_.find_neighbors(plane, ratio)
     return any(x is lb_ for x in res), any(x is la_ for x in res)
@@ -295,22 +303,28 @@ def run_predicates(ctx: C.Ctx) -> None:
                 ask("space_v" if vertical else "space_h", [wm, last] + list(b), space, {"case": case, "wm": wm})
             else:
                 r, a, b = gen_neighbor_pair(rng, vertical)
-                nb, self_nb = impl_neighbors(a, b, r, vertical)
+                pg = rng.choice(PAGES)
+                ctx.branch("pred:page:" + ",".join(pg))
+                nb, self_nb = impl_neighbors(a, b, r, vertical, pg)
                 ctx.case(("nb", vertical, r, a, b), True, sample={"pred": "neighbour", "ratio": S(r),
                                                                   "a": [S(v) for v in a], "b": [S(v) for v in b]},
                          branch="pred:neighbor_%s:%d" % ("v" if vertical else "h", nb))
                 ask("neighbor_v" if vertical else "neighbor_h", [r] + list(a) + list(b), nb,
-                    {"a": a, "b": b, "ratio": r, "vertical": vertical})
+                    {"a": a, "b": b, "ratio": r, "vertical": vertical, "page": tuple(F(v) for v in pg)})
                 # end to end: two single-glyph lines share a box iff neighbours in one direction
                 if i % 2 == 0:
-                    nb2, _ = impl_neighbors(b, a, r, vertical)
+                    nb2, _ = impl_neighbors(b, a, r, vertical, pg)
                     la = dict(LA0, line_overlap="1", char_margin="0", line_margin=S(r), detect_vertical=vertical,
                               boxes_flow=None)
-                    same_line, _, _, same_box, case = impl_pair(a, b, la, texts=("a", "b"))
+                    same_line, _, _, same_box, case = impl_pair(a, b, la, texts=("a", "b"), bbox=pg)
                     ctx.branch("pred:same_box:%d" % same_box)
                     if not same_line and same_box != (nb or nb2):
                         ctx.fail(C.Failure("two lines share a box although neither is a neighbour of the other (or vice versa)",
-                                           case, nb or nb2, same_box, {"check": "box-vs-neighbour"}))
+                                           case, nb or nb2, same_box, {"check": "box-vs-find_neighbors"}))
+                    if not same_line and not vertical:
+                        # ... and iff the DOCUMENTED relation holds in one of the two directions
+                        ask("neighbor_h", [r] + list(a) + list(b), same_box, {"case": case, "either": True})
+                        ask("neighbor_h", [r] + list(b) + list(a), None, {"skip": True})
         except Exception as e:  # noqa: BLE001
             ctx.fail(C.Failure("layout analysis raised on a two-glyph page", {"i": i}, "no exception", repr(e),
                                {"check": "exception"}))
@@ -329,6 +343,14 @@ def run_predicates(ctx: C.Ctx) -> None:
             other = outs[idx + 1].split()
             model_val = model_val and other[0] != "1"
             spec_val = spec_val and other[1] != "1"
+        if info.get("either"):
+            other = outs[idx + 1].split()
+            model_val = model_val or other[0] == "1"
+            spec_val = spec_val or other[1] == "1"
+            if spec_val != impl_val:
+                ctx.fail(C.Failure("two lines are (not) joined into one box against the documented neighbour relation",
+                                   info["case"], spec_val, impl_val, {"check": "box-vs-neighbour"}))
+            continue
         if model_val != impl_val:
             ctx.disagree("pred." + name, {k: str(v) for k, v in info.items() if k != "case"}, impl_val, model_val)
         if spec_val != impl_val:
@@ -692,7 +714,7 @@ def replay_pred(ctx: C.Ctx, name: str, inp, tags) -> None:
         a = tuple(F(x) for x in inp["a"])
         b = tuple(F(x) for x in inp["b"])
         r = F(inp["ratio"])
-        got, _ = impl_neighbors(a, b, r, name.endswith("_v"))
+        got, _ = impl_neighbors(a, b, r, name.endswith("_v"), tuple(inp.get("page") or BIG_PAGE))
         exp = spec_of("pred %s %s" % (name, " ".join(S(x) for x in [r] + list(a) + list(b))))
     else:
         la = inp["la"]
@@ -725,7 +747,18 @@ def replay(ctx: C.Ctx, doc, batch=None) -> None:
         replay_pred(ctx, check[5:], inp, tags)
     elif isinstance(inp, dict) and "items" in inp:
         ctx.case(("replay", json.dumps(inp, sort_keys=True)), True, branch="replay")
-        if check == "column-order":
+        if check == "box-vs-neighbour" and ctx.driver is not None and len(inp["items"]) == 2:
+            a = tuple(F(v) for v in inp["items"][0][2:6])
+            b = tuple(F(v) for v in inp["items"][1][2:6])
+            r = F(inp["la"]["line_margin"])
+            same_line, _, _, same_box, _ = impl_pair(a, b, inp["la"], bbox=tuple(inp["bbox"]))
+            o = ctx.driver.ask(["pred neighbor_h " + " ".join(S(x) for x in [r] + list(a) + list(b)),
+                                "pred neighbor_h " + " ".join(S(x) for x in [r] + list(b) + list(a))])
+            spec = o[0].split()[1] == "1" or o[1].split()[1] == "1"
+            if not same_line and spec != same_box:
+                ctx.fail(C.Failure("two lines are (not) joined into one box against the documented neighbour relation",
+                                   inp, spec, same_box, tags))
+        elif check == "column-order":
             page, err = L.run_impl(inp)
             if err is not None:
                 ctx.fail(C.Failure("layout analysis raised", inp, "no exception", repr(err), {"check": "exception"}))
